@@ -253,14 +253,13 @@ func (dm *DMap) readRepair(winner *version, versions []*version) {
 		if tmp.CompareByID(dm.s.rt.This()) {
 			hkey := partitions.HKey(dm.name, winner.entry.Key())
 			part := dm.getPartitionByHKey(hkey, partitions.PRIMARY)
-			f, err := dm.loadOrCreateFragment(part)
+			f, err := dm.lockFragment(part)
 			if err != nil {
 				dm.s.log.V(3).Printf("[ERROR] Failed to get or create the fragment for: %s on %s: %v",
 					winner.entry.Key(), dm.name, err)
 				return
 			}
 
-			f.Lock()
 			e := newEnv(context.Background())
 			e.hkey = hkey
 			e.fragment = f
